@@ -124,7 +124,7 @@ pub fn def() -> PropDef {
         title: "Hit titles are the stored titles, only decorated; ids are real; no NUL",
         rule: "random worlds: 1-6 records with adversarial titles (expanding letters, decomposed accents, NUL/separators at edges, joined shapes; ids duplicated in ~1/12 of records), any limit, 2-3 queries related to the titles (or empty); each query searched with sentinel markers U+E000/U+E001 and with an arbitrary second pair (empty, multi-char, equal, occurring in titles, containing NUL). Oracle: sentinel-stripped title == own compose model of a stored title with that id, NULs dropped; second search == sentinel structure re-rendered with the second pair. Non-trivial = a hit with >= 1 span on a title containing an expanding or composed character, a NUL or a marker string; distinct = distinct world",
         assumptions: &["compose model = left-to-right longest match over the pairs the language itself reports", "titles never contain the sentinel characters (generator excludes them)"],
-        spaces: vec![Space { name: "world", decode, plan: |t| Plan::Random(t.n(60_000, 2_000_000)) }],
+        spaces: vec![Space { name: "world", decode, plan: |t| Plan::Random(t.n(200_000, 3_000_000)) }],
         differential: false,
     }
 }
